@@ -185,3 +185,20 @@ class AbsLinkEvent:
 
     def __call__(self, data):
         raise NotImplementedError("external")
+
+
+class AbsThread:
+    """threading.Thread seen from another thread.  Ghost field g_dead: the thread has ended (never alive again)."""
+
+    def is_alive(self):
+        raise NotImplementedError("external")
+
+    def join(self, timeout=None):
+        raise NotImplementedError("external")
+
+
+class AbsHook:
+    """A call-back without arguments (e.g. the dispatcher's stopped_target).  Ghost fields: g_calls, g_owner."""
+
+    def __call__(self):
+        raise NotImplementedError("external")
